@@ -324,6 +324,16 @@ func (c18) Exec(c Case) []string {
 			}(i)
 			continue
 		}
+		if op[0] == "tlsrun" && len(op) == 3 {
+			iv, _ := strconv.Atoi(op[1])
+			tk, _ := strconv.Atoi(op[2])
+			wg.Add(1)
+			go func(i int) {
+				defer wg.Done()
+				obs[i] = tlsKeepalive(iv, tk)
+			}(i)
+			continue
+		}
 		if op[0] == "xclose" && len(op) == 3 {
 			iv, _ := strconv.Atoi(op[1])
 			a, _ := strconv.Atoi(op[2])
@@ -389,6 +399,9 @@ func (c18) Generate(rng *rand.Rand, tier string, st *Stats) []Case {
 			ops = append(ops, []string{"xrun", strconv.Itoa([]int{4, 7, 12}[(k+b)%3]), strconv.Itoa(k)})
 			st.Inc("dead_connection_real_transport")
 		}
+		// keepalives of a STARTTLS session travel inside the TLS session
+		ops = append(ops, []string{"tlsrun", strconv.Itoa([]int{15, 25, 40}[b%3]), "6"})
+		st.Inc("keepalive_inside_tls")
 		// the server closes the stream gracefully at various phases relative to the ticker
 		for j := 0; j < 4; j++ {
 			iv := []int{4, 7, 12}[(j+b)%3]
